@@ -2,10 +2,12 @@ package main
 
 import (
 	"encoding/json"
+	"fmt"
 	"math"
 	"os"
 	"strconv"
 	"strings"
+	"time"
 
 	"verifh/lib"
 )
@@ -445,6 +447,34 @@ func genNumerals(w *lib.Writer, r *lib.Rand, tier string) {
 			runCase(w, in{Kind: "numb", S: hx(bl + "11" + bl), Base: 2 + i%35})
 		}
 	}
+	// long numerals: more than 800 integer digits, more than 800 leading fraction zeros, exponents
+	// beyond 10000 (limits of strconv's internal decimal): the value must not depend on the length
+	nlong := 10
+	if tier == "thorough" {
+		nlong = 120
+	}
+	longs := []string{
+		"1" + strings.Repeat("0", 800) + "e-800", strings.Repeat("9", 850) + "e-850", "1" + strings.Repeat("0", 799) + "e-799",
+		"0." + strings.Repeat("0", 12000) + "1e12001", "1" + strings.Repeat("0", 12000) + "e-12000", "-" + strings.Repeat("0", 900) + "5" + strings.Repeat("0", 900) + ".5e-900",
+		"0." + strings.Repeat("0", 900) + "25e+901", strings.Repeat("1", 1300), "1e" + strings.Repeat("0", 900) + "2",
+	}
+	for i := 0; i < nlong; i++ {
+		n := r.Range(780, 1400)
+		k := r.Range(1, 30)
+		switch r.Intn(4) {
+		case 0: // long integer part, exponent brings it back
+			longs = append(longs, randDigits(r, k)+strings.Repeat("0", n)+"e-"+strconv.Itoa(n+r.Range(-3, 3)))
+		case 1: // long run of fraction zeros
+			longs = append(longs, "."+strings.Repeat("0", n)+randDigits(r, k)+"e"+strconv.Itoa(n+r.Range(-3, 3)))
+		case 2: // all digits significant
+			longs = append(longs, "1"+randDigits(r, n)+"."+randDigits(r, k)+"E-"+strconv.Itoa(n-r.Intn(20)))
+		case 3: // leading zeros before a long integer part
+			longs = append(longs, strings.Repeat("0", r.Range(1, 900))+"7"+randDigits(r, n)+"e-"+strconv.Itoa(n))
+		}
+	}
+	for _, s := range longs {
+		numCases(w, []byte(s))
+	}
 	// structured numerals: well-formed, decorated, and mutated
 	ns := 450
 	if tier == "thorough" {
@@ -698,6 +728,16 @@ func genDates(w *lib.Writer, r *lib.Rand, tier string) {
 		}
 		runCase(w, in{Kind: "strf", S: hx(sb.String()), T: int64(r.U64()%uint64(2*span)) - span})
 	}
+	// a format is scanned in a loop, whatever its length: long runs of "%%" (in a child process: the
+	// recursion this used to be overflowed the Go stack, which no pcall can catch)
+	for _, n := range []int{100000, 6000000} {
+		id := w.NextID()
+		runCase(w, in{Kind: "strf", S: hx(strings.Repeat("%%", 3) + "%Y"), T: int64(n)})
+		if msg := runChild(120*time.Second, "pctpct", strconv.Itoa(n)); msg != "" {
+			w.GoFail(id, fmt.Sprintf("os.date of %d pairs of %%%% did not return that many percent signs (child process): %s", n, msg))
+		}
+		w.Meta.GoOnlyChecked++
+	}
 	// os.time on tables: fields in and out of range, omitted time of day, string values
 	nm := 150
 	if tier == "thorough" {
@@ -727,6 +767,27 @@ func genDates(w *lib.Writer, r *lib.Rand, tier string) {
 		add("hour", 0, 23, true)
 		add("min", 0, 59, true)
 		add("sec", 0, 59, true)
+		if r.Chance(25) { // some fields come from the metatable's __index table
+			for i := range tb {
+				if r.Chance(50) {
+					tb[i].Inh = true
+				}
+			}
+			if r.Chance(30) { // an own field shadows an inherited one of the same name
+				sh := tb[r.Intn(len(tb))]
+				sh.Inh = true
+				sh.IsS, sh.IsB, sh.Num = false, false, num(int64(r.Range(1, 12)))
+				own := false
+				for _, f := range tb {
+					if f.Name == sh.Name && !f.Inh {
+						own = true
+					}
+				}
+				if own {
+					tb = append(tb, sh)
+				}
+			}
+		}
 		switch r.Intn(12) { // a required field missing or not a number: os.time must raise
 		case 0:
 			tb = tb[1:]
